@@ -75,7 +75,7 @@ def one_item(plan, item):
     text, tokpos = render(item['toks'], item.get('seed', 0), item.get('case', 'lower'), item.get('layout', 'mixed'), item.get('keep'))
     ev = {'src': item['body'], 'toks': item['toks'], 'err': '', 'errkind': '', 'real': [], 'tokpos': tokpos, 'nodes': [], 'text': text,
           'home': item['home'], 'gen': '', 'idem': 'skip', 'consistent': 'skip',
-          'facts': {'stmts': [], 'vals': [], 'vars': [], 'ppairs': [], 'subtype_counts': [], 'rawkw': []},
+          'facts': {'stmts': [], 'vals': [], 'vars': [], 'ppairs': [], 'subtype_counts': [], 'rawkw': [], 'nlinks': 0},
           'strict': 'yes' if item.get('strict') else 'no'}
     try:
         with limit(60.0):
